@@ -225,13 +225,45 @@ func VerifC16() {
 	for _, s := range ss {
 		s.mode = 0
 	}
-	if len(cs) > 0 {
+	block2 := len(cs) > 0 && rt.Bool("block2")
+	if block2 {
 		cs[len(cs)-1].mode = 2 // blocked by another slot, with another message
 	}
+	n2 := len(log.calls)
 	e2, blk2 := Entry("R16b", WithSlotChain(sc))
+	rt.Assert((blk2 != nil) == block2 && (e2 != nil) == !block2, "second entry: blocked iff a slot blocks it, whatever happened to the entry whose pooled context it reuses")
 	if e2 != nil {
 		e2.Exit()
 	}
+	var want2 []int
+	for _, i := range verifStableOrder(po) {
+		want2 = append(want2, 100+i)
+	}
+	for _, i := range verifStableOrder(co) {
+		want2 = append(want2, 200+i)
+		if cs[i].mode == 2 {
+			break
+		}
+	}
+	for _, i := range verifStableOrder(so) {
+		if block2 {
+			want2 = append(want2, 400+i)
+		} else {
+			want2 = append(want2, 300+i)
+		}
+	}
+	if !block2 {
+		for _, i := range verifStableOrder(so) {
+			want2 = append(want2, 500+i)
+		}
+	}
+	same2 := len(log.calls)-n2 == len(want2)
+	if same2 {
+		for i := range want2 {
+			same2 = same2 && log.calls[n2+i] == want2[i]
+		}
+	}
+	rt.Assert(same2, "second entry (recycled context): every slot runs in order, statistic slots are told passed and completed (or blocked) exactly once")
 	if blk != nil && blocker >= 0 {
 		rt.Reach("c16.blockerror-stable")
 		rt.Assert(blk.BlockMsg() == verifMsgs[blocker] && blk.BlockType() == base.BlockTypeFlow+base.BlockType(blocker), "the block error handed to the caller is unchanged after other entries ran")
